@@ -17,6 +17,7 @@ import (
 
 	"verif/checker/internal/core"
 	"verif/checker/internal/ctx"
+	"verif/checker/internal/tmpl"
 )
 
 // Go 1.20 type kinds (Alias does not exist before 1.22; Union only occurs inside constraints).
@@ -156,7 +157,7 @@ func discoverSwitches(c *ctx.Ctx, pkgRel string) []*switchInfo {
 				if sw.Tag == nil {
 					return true
 				}
-				si := &switchInfo{fn: fn, node: sw, casePath: casePathOf(info, stack[:len(stack)-1]), subject: types.ExprString(sw.Tag)}
+				si := &switchInfo{fn: fn, node: sw, casePath: casePathOf(info, stack[:len(stack)-1]), subject: tmpl.CanonTag(info, sw.Tag)}
 				tt := info.TypeOf(sw.Tag)
 				si.domain = "other:" + fmt.Sprint(tt)
 				if tt != nil {
@@ -225,7 +226,7 @@ func casePathOf(info *types.Info, stack []ast.Node) []string {
 			switch sw := stack[i-2].(type) {
 			case *ast.SwitchStmt:
 				if sw.Tag != nil {
-					tag = types.ExprString(sw.Tag)
+					tag = tmpl.CanonTag(info, sw.Tag)
 				}
 			case *ast.TypeSwitchStmt:
 				tag = "type"
